@@ -26,9 +26,9 @@ var spot string
 
 var spotlights = map[string][]string{
 	"C01": {"swap-recheck", "other-invoker", "sibling-P", "inv-as-proof", "lookalike", "long-chain", "prov-dlg", "hook-twice"},
-	"C02": {"self-K", "sibling-K", "alike", "deep", "top-under-one", "long-chain", "reserved", "repeat-cmd"},
+	"C02": {"self-K", "sibling-K", "alike", "deep", "top-under-one", "long-chain", "reserved", "repeat-cmd", "rawcmd"},
 	"C03": {"uslice", "nullopt", "alias", "twin", "sibling-Q", "hook-null", "optional-and", "starstr", "same-selector"},
-	"C04": {"far-nbf", "sibling-W", "both-bounds", "unbounded-then-bad"},
+	"C04": {"far-nbf", "sibling-W", "both-bounds", "unbounded-then-bad", "shared-option"},
 	"C05": {"far-exp", "uslice", "prov-inv", "prov-dlg", "hook-twice", "long-chain", "reuse", "starstr", "repeat-cmd", "overlap-args"},
 	"C07": {"far-exp", "uslice", "nullopt"},
 	"C09": {"inv-as-proof", "long-chain", "deep"},
@@ -815,6 +815,9 @@ func (g *wgen) issueDlg(d DlgSpec) {
 	if (d.Exp != nil && *d.Exp <= nowSec+1) || (d.Nbf != nil && *d.Nbf <= nowSec+1) {
 		d.Relative = true
 	}
+	if d.ShareOpt != "" {
+		d.Relative = true
+	}
 	const span = 200 * 365 * 86400 // With...In takes a time.Duration: no more than ~292 years
 	if (d.Exp != nil && *d.Exp-nowSec > span) || (d.Nbf != nil && *d.Nbf-nowSec > span) {
 		d.Relative = false
@@ -882,7 +885,7 @@ func genWorld(r *Rand, cfg GenCfg) Plan {
 	defer func() { deepCommands = false }()
 	nLinks := []int{1, 1, 2, 2, 3, 3, 4, 5, 6, 8, 0}[r.Intn(11)]
 	switch spot {
-	case "alias", "self-K", "sibling-K", "sibling-P", "sibling-Q", "sibling-W", "unbounded-then-bad", "top-under-one", "twin":
+	case "alias", "self-K", "sibling-K", "sibling-P", "sibling-Q", "sibling-W", "unbounded-then-bad", "top-under-one", "twin", "shared-option":
 		if nLinks < 3 {
 			nLinks = 3 + r.Intn(3)
 		}
@@ -917,9 +920,9 @@ func genWorld(r *Rand, cfg GenCfg) Plan {
 	switch spot {
 	case "swap-recheck", "other-invoker", "sibling-P", "sibling-K", "sibling-Q", "sibling-W", "prov-dlg", "prov-inv", "hook-twice", "far-exp", "reuse":
 		conform = true
-	case "self-K", "alike", "top-under-one", "reserved":
+	case "self-K", "alike", "top-under-one", "reserved", "rawcmd":
 		conform, forced = false, "K"
-	case "repeat-cmd", "overlap-args":
+	case "repeat-cmd", "overlap-args", "shared-option":
 		conform = true
 	case "inv-as-proof", "lookalike":
 		conform, forced = false, "P"
@@ -1009,14 +1012,36 @@ func genWorld(r *Rand, cfg GenCfg) Plan {
 		}
 	}
 
+	// --- one expiration option VALUE shared by two delegations that are issued at different
+	// times (an issuer that builds "valid for D" once and uses it for every token): the earlier
+	// token expires before the check instant, the later one after it
+	shareAt, shareTick := "", int64(0)
+	if (spot == "shared-option" || r.Chance(0.03)) && len(c.dlgs) >= 2 {
+		n := len(c.dlgs)
+		a := r.Intn(n - 1)
+		b := a + 1 + r.Intn(n-1-a)
+		tA := g.now / 1_000_000_000
+		if delta := (tcSec - tA) / 2; delta >= 4 {
+			tB := tA + delta
+			d := tcSec - tA - delta/2
+			c.dlgs[a].Exp, c.dlgs[a].Nbf, c.dlgs[a].SubMilli, c.dlgs[a].NbfMilli, c.dlgs[a].ShareOpt = ptr(tA+d), nil, 0, 0, "ttl"
+			c.dlgs[b].Exp, c.dlgs[b].Nbf, c.dlgs[b].SubMilli, c.dlgs[b].NbfMilli, c.dlgs[b].ShareOpt = ptr(tB+d), nil, 0, 0, "ttl"
+			shareAt, shareTick = c.dlgs[b].Label, tB*1_000_000_000
+			g.note("W:shared-expiration-option")
+		}
+	}
+
 	// --- issue
 	all := append([]DlgSpec{}, c.dlgs...)
 	if foreign != nil {
 		all = append(all, foreign.dlgs...)
 	}
 	for _, d := range all {
-		if r.Chance(0.5) {
+		if r.Chance(0.5) && shareAt == "" {
 			g.tickTo(g.now + int64(r.Range(1, 5_000_000_000)))
+		}
+		if d.Label == shareAt {
+			g.tickTo(shareTick)
 		}
 		g.issueDlg(d)
 	}
@@ -1472,13 +1497,39 @@ func (g *wgen) deviateK(c *chain) {
 		return
 	}
 	k := r.Range(1, n)
-	switch spot {
+	sp := spot
+	if sp == "" && r.Chance(0.06) {
+		sp = "rawcmd"
+	}
+	switch sp {
 	case "self-K":
 		for i := 1; i < n; i++ {
 			if c.dlgs[i].Iss == c.dlgs[i].Aud {
 				k = i // the self-link is the one that widens
 			}
 		}
+	case "rawcmd":
+		// a deviating issuer's delegation whose command no parser accepts (upper case, trailing
+		// slash, no leading slash, empty): the model reads the text as it stands
+		k = r.Intn(n)
+		base := c.dlgs[k].Cmd
+		raw := strings.ToUpper(base[:min(2, len(base))]) + base[min(2, len(base)):]
+		switch r.Intn(5) {
+		case 0:
+			raw = base + "/"
+		case 1:
+			raw = strings.TrimPrefix(base, "/")
+		case 2:
+			raw = ""
+		case 3:
+			raw = "/" + strings.ToUpper(Pick(r, cmdSegments[:8])) + strings.TrimSuffix(base, "/")
+		}
+		if raw == base || raw == "/" {
+			raw = "/X"
+		}
+		c.dlgs[k].RawCmd = raw
+		g.note("K:raw-command@" + fmt.Sprint(k))
+		return
 	case "top-under-one":
 		// everything above is "/", link k-1 grants exactly one segment, link k hands out "/" again
 		k = 1 + r.Intn(n-1)
